@@ -410,3 +410,8 @@ def run(ctx):
     ctx.alias = {"C01.r": "C05.g"}
     ctx.run_clause("C05.g", C01.c01r)
     ctx.alias = {}
+    # ... and a cancelled call may only undo what it did itself: the undo token belongs to the registration (C02.i as C05.h)
+    from . import C02
+    ctx.alias = {"C02.i": "C05.h"}
+    ctx.run_clause("C05.h", C02.c02i)
+    ctx.alias = {}
